@@ -216,6 +216,16 @@ def okCmp (cmpStorage : Bool) : Field → Bool
   | .prim _ _ => true
   | .varr _ _ cap sl _ _ => decide (cmpBound cmpStorage cap sl ≤ sl)
 
+/-- every write of the field goes through the bounds-checked setter (the C++ serializer: `setUxx`/`setBit`/… only) -/
+def allChecked : Field → Bool
+  | .prim _ c => c
+  | .varr _ _ _ _ lpc ec => lpc && ec
+
+/-- the union tag (if any) is written through the checked setter -/
+def Msg.tagOk : Msg → Bool
+  | .struct _ => true
+  | .union _ tc _ => tc
+
 def Msg.fields : Msg → List Field
   | .struct fs => fs
   | .union _ _ fs => fs
